@@ -23,10 +23,32 @@ entry), so the served states are closed under erroring texts as well. Proved so 
 * `errLeavesServed_of_callFault`
                            the full statement from `RunInv.CallFaultOK` (a failing `callArr` /
                            `callExpr` leaves a `FaultOK` state: the error-path contract of the
-                           nested evaluators — stage C2, NOT proved).
+                           nested evaluators).
+Stage C2 (Proofs/RunErr2.lean):
+* `err_contract`           `RunInv.errSpec`: by induction on the fuel over all thirteen functions
+                           of the VM's mutual block, for the outcome `err`: the function leaves
+                           well-formed tables that have only grown, the set-aside stacks and the
+                           scope stack as they were (`RunInv.ErrOut`; `exec`: `FaultOK`); a nested
+                           `Run` comes back to the scope stack it captured, so the restore of the
+                           evaluator around it (`EvalCallExpression`, `Force`, `Apply`,
+                           `CallUserFunction`) is exact on scope and set-aside stacks. ONE
+                           hypothesis: `RunInv.NoBuiltinPanic` — from a well-formed state no Go
+                           builtin ends in a host panic (`CallUserFunction`'s `recover` would turn
+                           it into an error at a state nothing is known about). That is C01's
+                           statement; it is NOT proved here.
+Stage C3:
+* `err_leaves_served_partial`   `ErrLeavesServed` from `NoBuiltinPanic`;
+* `ServedStateE`, `servedStateE_served_partial`, `run_at_rest_after_errors_partial`
+                           the served states closed under value-returning AND erroring texts of the
+                           grammar; the next text that returns a value leaves the interpreter at
+                           rest, the next that fails leaves it at rest with the stacks exactly
+                           those of entry.
+* `nested_run_error_restores_partial`
+                           every nested `Run` that fails leaves the scope stack and the set-aside
+                           stacks of its entry and well-formed tables.
 -/
 import ZygoVerif.Props.C04
-import ZygoVerif.Proofs.RunErr
+import ZygoVerif.Proofs.RunErr2
 namespace ZygoVerif.C04
 open ZygoVerif.Bal ZygoVerif.VM ZygoVerif.Core ZygoVerif.RunInv ZygoVerif.Contain
 
@@ -86,6 +108,55 @@ theorem errLeavesServed_of_callFault (hcall : CallFaultOK) : ErrLeavesServed := 
   intro fuel es s s' v tr d alive hs hok h
   have := runText_err_served hcall fuel es s s' v tr d alive hs hok h
   exact ⟨this, served_same_stacks hs this⟩
+
+/-! ## Stages C2, C3 -/
+
+/-- (C2) the error-path contract, all thirteen functions, outcome `err` -/
+theorem err_contract (hnp : NoBuiltinPanic) : ∀ n, ErrSpec n := errSpec hnp
+
+/-- (C3) **err_leaves_served** from C01's statement about the builtins -/
+theorem err_leaves_served_partial (hnp : NoBuiltinPanic) : ErrLeavesServed :=
+  errLeavesServed_of_callFault (callFaultOK hnp)
+
+/-- The states an interpreter is in between texts: the fresh interpreter, and every state reached
+from it by texts of the grammar that returned a value OR ended in an error (`ServedState` of
+Props/C04.lean closed under erroring texts). Not covered: compile errors, host panics, fuel. -/
+inductive ServedStateE : St → Prop
+  | init : ServedStateE initSt
+  | text {s s' : St} {fuel : Nat} {es : List Expr} {v : String} {tr : List String} {d : String} {alive : Bool} :
+      ServedStateE s → okLs es = true → runText fuel es s = (Outcome.done "ok" v tr d, s', alive) → ServedStateE s'
+  | err {s s' : St} {fuel : Nat} {es : List Expr} {v : String} {tr : List String} {d : String} {alive : Bool} :
+      ServedStateE s → okLs es = true → runText fuel es s = (Outcome.done "err" v tr d, s', alive) → ServedStateE s'
+
+theorem servedStateE_served_partial (hnp : NoBuiltinPanic) {s : St} (h : ServedStateE s) : Served s := by
+  induction h with
+  | init => exact served_initSt
+  | text _ hok hrun ih => exact (run_at_rest_of_invariant _ _ _ _ _ _ _ _ ih hok hrun).2
+  | err _ hok hrun ih => exact (err_leaves_served_partial hnp _ _ _ _ _ _ _ _ ih hok hrun).1
+
+/-- (C3) after any history of value-returning and erroring texts of the grammar: a text that
+returns a value leaves the interpreter at rest; a text that fails leaves it at rest with the three
+stacks and the set-aside stacks exactly those of entry (C05's `vm_run_error_exact`, with the
+`Extends3` hypothesis discharged for the outermost `Run` of generated code). -/
+theorem run_at_rest_after_errors_partial (hnp : NoBuiltinPanic) (fuel : Nat) (es : List Expr) (s s' : St) (v : String)
+    (tr : List String) (d : String) (alive : Bool) (hs : ServedStateE s) (hok : okLs es = true) :
+    (runText fuel es s = (Outcome.done "ok" v tr d, s', alive) → AtRest s') ∧
+    (runText fuel es s = (Outcome.done "err" v tr d, s', alive) →
+      AtRest s' ∧ s'.data = s.data ∧ s'.linear = s.linear ∧ s'.addr = s.addr ∧ s'.suspended = s.suspended) := by
+  have hS := servedStateE_served_partial hnp hs
+  refine ⟨fun h => (run_at_rest_of_invariant fuel es s s' v tr d alive hS hok h).1, fun h => ?_⟩
+  obtain ⟨h1, h2⟩ := err_leaves_served_partial hnp fuel es s s' v tr d alive hS hok h
+  exact ⟨h1.rest, h2⟩
+
+/-- (C2) every nested `Run` of a function object entered by `CallFunction` (`b`: the stacks of
+the caller) that fails leaves well-formed tables, the scope stack and the set-aside stacks of
+its entry -/
+theorem nested_run_error_restores_partial (hnp : NoBuiltinPanic) (n : Nat) (b : Base) (s s' : St) (top : Act) (hw : WF s)
+    (hr : Running b s top []) (hb : b.pc = -2) (hm : b.main = false) (hl : b.linear = s.linear)
+    (h : (run n).run s = (.error .err, s')) :
+    WFd s' ∧ TExt s s' ∧ s'.suspended = s.suspended ∧ s'.linear = s.linear :=
+  have := (errSpec hnp n).run b s s' top hw hr hb hm hl h
+  ⟨this.tab, this.ext, this.susp, this.lin⟩
 
 /-- non-vacuity of `FaultOK`/`Tab`: a state is `Tab`-related to itself, and the fresh interpreter is `Served` -/
 example : Tab initSt initSt := Tab.refl _
